@@ -2,7 +2,7 @@
 subclasses (used by C09 and C23)."""
 import ast
 from sa.index import AnalysisError, loc, norm
-from sa.cfg import CFG, calls_at
+from sa.cfg import CFG, calls_at, header_exprs
 
 PLT = "psyclone.psyir.transformations.parallel_loop_trans.ParallelLoopTrans"
 
@@ -153,13 +153,25 @@ def check_generic_validate(idx, run, rule):
     return func
 
 
-def caller_option_stores(func, cfg=None):
-    """Subscript stores that can reach the dictionary the caller passed as
-    `options` (forward may-alias analysis over the statement graph)."""
+MUTATORS = {"setdefault", "update", "pop", "popitem", "clear",
+            "__setitem__", "__delitem__"}
+
+
+def option_flow(func, cfg=None, alias_returning=()):
+    """Forward may-alias analysis over the statement graph of `func` for the
+    dictionary its caller passed as `options`.  -> (writes, returns_alias):
+    the statements that can write into that dictionary (subscript stores,
+    deletes, mutating method calls) and whether the function can return it.
+    `alias_returning`: names of methods known to return their options
+    argument (so `x = self.m(options)` keeps x an alias)."""
     if cfg is None:
         cfg = CFG(func)
+    params = [a.arg for a in func.args.args + func.args.kwonlyargs]
+    if "options" not in params:
+        return [], False
+
     def is_alias(value, aliases):
-        # does this expression evaluate to the caller's dictionary?
+        # can this expression evaluate to the caller's dictionary?
         if isinstance(value, ast.Name):
             return value.id in aliases
         if isinstance(value, ast.BoolOp):
@@ -167,9 +179,12 @@ def caller_option_stores(func, cfg=None):
         if isinstance(value, ast.IfExp):
             return is_alias(value.body, aliases) or \
                 is_alias(value.orelse, aliases)
+        if isinstance(value, ast.Call) and \
+                isinstance(value.func, ast.Attribute) and \
+                value.func.attr in alias_returning:
+            return any(is_alias(arg, aliases) for arg in list(value.args) +
+                       [k.value for k in value.keywords])
         return False
-    # forward may-alias analysis over the statement graph: which names
-    # can still refer to the caller's dictionary at each statement
     state = {n.id: None for n in cfg.nodes}
     state[cfg.entry.id] = frozenset({"options"})
     work = [cfg.entry]
@@ -190,17 +205,62 @@ def caller_option_stores(func, cfg=None):
             if new != state[nxt.id]:
                 state[nxt.id] = new
                 work.append(nxt)
-    stores = []
+    writes = []
+    returns = False
     for cur in cfg.nodes:
         st = cur.ast
-        if cur.kind == "stmt" and isinstance(st, ast.Assign) and \
-                state[cur.id] is not None:
-            for tgt in st.targets:
-                if isinstance(tgt, ast.Subscript) and \
-                        isinstance(tgt.value, ast.Name) and \
-                        tgt.value.id in state[cur.id]:
-                    stores.append(st)
-    return stores
+        live = state[cur.id]
+        if st is None or live is None:
+            continue
+        if cur.kind == "stmt" and isinstance(st, ast.Return) and \
+                st.value is not None and is_alias(st.value, live):
+            returns = True
+        targets = []
+        if cur.kind == "stmt" and isinstance(st, ast.Assign):
+            targets = st.targets
+        elif cur.kind == "stmt" and isinstance(st, ast.AugAssign):
+            targets = [st.target]
+        elif cur.kind == "stmt" and isinstance(st, ast.Delete):
+            targets = st.targets
+        for tgt in targets:
+            if isinstance(tgt, ast.Subscript) and \
+                    isinstance(tgt.value, ast.Name) and tgt.value.id in live:
+                writes.append(st)
+        for expr in header_exprs(cur):
+            for call in ast.walk(expr):
+                if isinstance(call, ast.Call) and \
+                        isinstance(call.func, ast.Attribute) and \
+                        call.func.attr in MUTATORS and \
+                        isinstance(call.func.value, ast.Name) and \
+                        call.func.value.id in live:
+                    writes.append(st)
+    return writes, returns
+
+
+def caller_option_stores(func, cfg=None, alias_returning=()):
+    return option_flow(func, cfg, alias_returning)[0]
+
+
+def option_leaks(idx, base="psyclone.psyGen.Transformation"):
+    """-> [(ClassInfo, FunctionDef, [writing statements])] for every method
+    with an `options` parameter of every subclass of `base`, and the names of
+    the methods that can hand the caller's dictionary back."""
+    funcs = []
+    for cls in idx.all_subclasses(base):
+        for name, func in cls.methods.items():
+            if isinstance(func, ast.FunctionDef) and "options" in [
+                    a.arg for a in func.args.args + func.args.kwonlyargs]:
+                funcs.append((cls, func))
+    returning = set()
+    for _ in range(3):      # summaries to a fixed point (depth is tiny)
+        found = {func.name for cls, func in funcs
+                 if option_flow(func, None, returning)[1]}
+        if found == returning:
+            break
+        returning = found
+    out = [(cls, func, option_flow(func, None, returning)[0])
+           for cls, func in funcs]
+    return out, returning
 
 
 def check_subclass_chains(idx, run, rule):
